@@ -26,6 +26,11 @@ def impl_dec(s):
         return "ERR " + fw.classify_exc(e)
 
 
+def impl_dec_raising(s):
+    from webauthn.helpers.base64url_to_bytes import base64url_to_bytes
+    return base64url_to_bytes(s)          # (exceptions propagate: that is the point)
+
+
 ALPHA = set("ABCDEFGHIJKLMNOPQRSTUVWXYZabcdefghijklmnopqrstuvwxyz0123456789-_")
 
 
@@ -145,6 +150,18 @@ def run(tier, seed):
             want = _b64.urlsafe_b64encode(raw).decode().rstrip("=")
             if enc != want:
                 chk.violation(f"a bytes subclass with its own equality / hash ({cls.__name__}) is not encoded by its contents", f"enc-bytes-subclass {cls.__name__}", {"op": "enc", "class": cls.__name__, "contents_hex": raw.hex(), "impl": enc, "expected": want})
+    # new public API of the changed source must not change what the codec does
+    def _probe():
+        out = []
+        for b in (b"", b"\x00", b"ab", b"\xfb\xff\xfe\x01", bytes(range(20))):
+            e = impl_enc(b)
+            out.append((f"enc {b.hex()}", str(e)))
+            for k in range(4):
+                out.append((f"dec {b.hex()} pad={k}", impl_dec(str(e) + "=" * k)))
+        for t in ("A", "AAAAA", "AA.A", "\u00e9", "AA AA", "!!!!"):
+            out.append((f"dec text {t!r}", impl_dec(t)))
+        return out
+    fw.exercise_new_api(chk, _probe, lambda: [_probe(), impl_dec_raising("AQ=="), impl_dec_raising("A")])
     # texts that are words elsewhere but plain base64url here: decode(text) is what the model says, and re-encoding gives the text back when it is canonical
     from harness import srcdict
     import base64 as _b64
@@ -181,7 +198,11 @@ def run(tier, seed):
                 chk.violation(f"{cer}: credential whose id {good!r} IS the base64url encoding of its raw id refused", f"id-canonical-refused {cer} {good[:8]}", {"op": "id", "ceremony": cer, "raw_id": cid.hex(), "id": good, "impl": o[:120]})
         twin = good[:-1] + "ABCDEFGHIJKLMNOPQRSTUVWXYZabcdefghijklmnopqrstuvwxyz0123456789-_"[("ABCDEFGHIJKLMNOPQRSTUVWXYZabcdefghijklmnopqrstuvwxyz0123456789-_".index(good[-1])) ^ 1]
         spell = {"padded-1": good + "=", "padded-2": good + "==", "dot-inserted": good[:2] + "." + good[2:], "newline-appended": good + "\n",
-                 "standard-alphabet": good.replace("-", "+").replace("_", "/"), "last-char-spare-bits": twin, "space-prefixed": " " + good}
+                 "standard-alphabet": good.replace("-", "+").replace("_", "/"), "last-char-spare-bits": twin, "space-prefixed": " " + good,
+                 # THE encoding with characters added that are no base64url characters at all (any script, invisible ones, lone surrogates, NUL) - in front, behind, inside
+                 "non-ascii-appended": good + "\u00e9", "zero-width-space-inside": good[:1] + "\u200b" + good[1:], "fullwidth-prefixed": "\uff21" + good, "cjk-appended": good + "\u65e5",
+                 "lone-surrogate-appended": good + "\ud800", "nul-appended": good + "\x00", "combining-mark-appended": good + "\u0301", "rtl-mark-prefixed": "\u202e" + good, "bom-prefixed": "\ufeff" + good,
+                 "tab-inside": good[:2] + "\t" + good[2:], "percent-encoded": "".join("%%%02X" % ord(c) for c in good), "quoted": '"' + good + '"'}
         for nm, idt in spell.items():
             if idt == good or (nm == "last-char-spare-bits" and len(cid) % 3 == 0):
                 continue
